@@ -209,6 +209,7 @@ fn other_std_types(rng: &mut Rng) {
         rt_via("(AtomicU16, AtomicI64) back to back", &(AtomicU16::new(x as u16), AtomicI64::new(-(x as i64 >> 3))), &|a| (a.0.load(Ordering::SeqCst), a.1.load(Ordering::SeqCst)));
     }
     for v in [0u64, 127, 128, 16383, 16384, u64::MAX] { rt_via("AtomicU64 boundary", &AtomicU64::new(v), &|a| a.load(Ordering::SeqCst)); rt_via("AtomicI64 boundary", &AtomicI64::new(-(v as i64)), &|a| a.load(Ordering::SeqCst)); }
+    non_utf8_paths();
     rt("PhantomData<u8>", &std::marker::PhantomData::<u8>);
     rt("[u8;0]", &[0u8; 0]);
     rt("[u16;33]", &{ let mut a = [0u16; 33]; for (i, x) in a.iter_mut().enumerate() { *x = (i as u16) << 9; } a });
@@ -242,6 +243,39 @@ fn other_std_types(rng: &mut Rng) {
     rt("Vec<HashMap<u8,Vec<Option<String>>>>", &vec![HashMap::from([(1u8, vec![None, Some("x".to_string())])]), HashMap::new()]);
     rt("BTreeMap<String,BTreeSet<(u8,i8)>>", &BTreeMap::from([("k".to_string(), BTreeSet::from([(1u8, -1i8), (2, 0)])), (String::new(), BTreeSet::new())]));
 }
+
+/// a path that is not valid UTF-8 has no image in this format: the encoder must either refuse it (the unchanged tree returns
+/// InvalidData) or, if it produces bytes, those bytes must decode to the same path
+#[cfg(unix)]
+fn non_utf8_paths() {
+    use std::os::unix::ffi::OsStrExt;
+    use std::path::{Path, PathBuf};
+    let plugin = Plugin::new();
+    for raw in [&b"/data/\xff\xfe.bin"[..], &b"\xff"[..], &b"ok/\xc3"[..], &b"a\x80b"[..], &b"/x/\xed\xa0\x80"[..]] {
+        let p: PathBuf = Path::new(std::ffi::OsStr::from_bytes(raw)).to_path_buf();
+        unsafe { COUNT += 1 };
+        match qbice_serialize::postcard::encode(&p, &plugin) {
+            Err(_) => {}
+            Ok(bytes) => {
+                let mut dec = qbice_serialize::PostcardDecoder::new(&bytes[..]);
+                let r: std::io::Result<PathBuf> = qbice_serialize::Decoder::decode(&mut dec, &plugin);
+                match r {
+                    Ok(w) if w == p => {}
+                    other => report_found("PathBuf that is not valid UTF-8", &format!("{raw:?}"), &format!("encoded to {bytes:?}, which decodes to {other:?}"), "the same path (or a refusal to encode)"),
+                }
+            }
+        }
+        let bp: Box<Path> = p.clone().into_boxed_path();
+        unsafe { COUNT += 1 };
+        if let Ok(bytes) = qbice_serialize::postcard::encode(&bp, &plugin) {
+            let mut dec = qbice_serialize::PostcardDecoder::new(&bytes[..]);
+            let r: std::io::Result<Box<Path>> = qbice_serialize::Decoder::decode(&mut dec, &plugin);
+            match r { Ok(w) if w == bp => {}, other => report_found("Box<Path> that is not valid UTF-8", &format!("{raw:?}"), &format!("encoded to {bytes:?}, which decodes to {other:?}"), "the same path (or a refusal to encode)") }
+        }
+    }
+}
+#[cfg(not(unix))]
+fn non_utf8_paths() {}
 
 fn nested<T: Encode + Decode + PartialEq + Debug + Clone>(kind: &str, a: &T, b: &T) {
     rt(&format!("{kind}"), a);
@@ -466,6 +500,15 @@ fn main() {
         }
         nested("derive Either<u32,String>", &Either::<u32, String>::L(1 << 21), &Either::<u32, String>::R("x".into()));
         nested("derive Either<u32,String>", &Either::<u32, String>::N, &Either::<u32, String>::L(0));
+        // enums with more than 128 / 256 variants: the variant tag is a usize (LEB128), one byte only below 128
+        let wide = Wide::all();
+        let big = Big::all();
+        for v in &wide { rt("derive Wide (130 variants)", v); }
+        for v in &big { rt("derive Big (300 variants)", v); }
+        rt("derive Big: all 300 variants back to back", &big);
+        rt("derive (Wide, u8, Wide) around the two-byte tag", &(Wide::V128, 7u8, Wide::V129(65535)));
+        rt("derive Vec<Big> mixing one- and two-byte tags", &vec![big[130].clone(), big[3].clone(), big[255].clone(), big[0].clone(), big[299].clone(), big[256].clone(), big[127].clone(), big[128].clone()]);
+        nested("derive Big", &big[256], &big[127]);
     }
     other_std_types(&mut rng);
     interned_cases();
